@@ -14,5 +14,7 @@ run() { patcher=$1; shift; python3 $patcher || { echo "patcher failed"; rc=1; re
 run /verif/selftest/benign/b1_extract_and_verify_refactor.py C01 C19 C20 C27
 run /verif/selftest/benign/b2_srpc_packet_keyfile_refactor.py C34 C08 C39 C40
 run /verif/selftest/benign/b3_signaling_server_floodsub_refactor.py C22 C23 C24 C25 C27 C28 C29
+run /verif/selftest/benign/b4_transport_handler_refactor.py C03 C04 C05 C06
+run /verif/selftest/benign/b5_decrypt_refactor.py C12 C40 C26 C18
 [ $rc -eq 0 ] && echo "benign refactors: all verdicts unchanged"
 exit $rc
